@@ -13,7 +13,7 @@ from common import Cvec, Cx, R, Rmat, Rvec, cfl, fl, flmat, max_rel_err
 
 from common import wiring_pre_build as pre_build  # noqa: E402,F401
 
-LEAN_MODULES = ["PyomaVerif.Props.C17", "PyomaVerif.Props.C17Jac", "PyomaVerif.Props.C17Vec", "PyomaVerif.Mutants.C17", "PyomaVerif.Mutants.C17Vec", "PyomaVerif.Props.WiringRun", "PyomaVerif.Props.WiringCalls", "PyomaVerif.Props.C17Table"]
+LEAN_MODULES = ["PyomaVerif.Props.C17", "PyomaVerif.Props.C17Jac", "PyomaVerif.Props.C17Vec", "PyomaVerif.Mutants.C17", "PyomaVerif.Mutants.C17Vec", "PyomaVerif.Props.WiringRun", "PyomaVerif.Props.WiringCalls", "PyomaVerif.Props.C17Table", "PyomaVerif.Mutants.C17Table", "PyomaVerif.Props.C17Cell"]
 THEOREMS = [
     # the exact sequence of core-routine calls of the run()/mpe() body and the exact set of parameters bound at each (regenerated call table)
     "PV.WiringCalls.C12_ssidat_run_calls",
@@ -76,10 +76,36 @@ THEOREMS = [
     "PV.Mutants.C17.scale_mutant_fails",
     # Fn_cov / Xi_cov table assembly: cell (jj, ii) = |poleVar| of the jj-th eigen-triple of the pass of order ii (Model/Poles.lean ssiPoles; stream ssi.SSI_poles[cov values] in c01.py)
     "PV.Poles.ssiPoles_spec",
-    "PV.C17Table.var00_ufxAt",
-    "PV.C17Table.C17_fncov_cell",
-    "PV.C17Table.ex_ok",
-    "PV.C17Table.ex_cell",
+    "PV.C17Cell.var00_ufxAt",
+    "PV.C17Cell.C17_fncov_cell",
+    "PV.C17Cell.ex_ok",
+    "PV.C17Cell.ex_cell",
+    # structure (Props/C17Table.lean): the Fn_cov / Xi_cov tables, the factor of build_hank fed into the capstone, which columns
+    # enter which block (clipped last block), fxMap = the pole map of ac2mp
+    "PV.C17.C17_covFx_is_poleVar",
+    "PV.C17.C17_table_cells",
+    "PV.C17.C17_table_index_error",
+    "PV.C17.C17_table_variance",
+    "PV.C17.C17_factor_column_is_vec",
+    "PV.C17.C17_fncov_of_factor",
+    "PV.C17.C17_fncov_of_build_hank",
+    "PV.C17.C17_blockEst_explicit",
+    "PV.C17.C17_block_columns",
+    "PV.C17.C17_block_mean_general",
+    "PV.C17.C17_block_mean_clipped",
+    "PV.C17.C17_last_block_bias",
+    "PV.C17.C17_fxMap_is_ac2mp",
+    "PV.C17.C17_fxMap_fnOf_xiOf",
+    # existence of the first-order identification (simple eigenvalue) and the composed statement from value-level contracts
+    "PV.C17.C17_eig_first_order_exists",
+    "PV.C17.C17_first_order_ident_exists",
+    "PV.C17.C17_fncov_of_factor_exact",
+    "PV.C17.C17_fncov_of_build_hank_exact",
+    "PV.C17.ExTab.ident2_any",
+    "PV.C17.ExReal.svExact",
+    "PV.Mutants.C17Table.shifted_column_fails",
+    "PV.Mutants.C17Table.mispaired_eigvec_differs",
+    "PV.Mutants.C17Table.width_division_fails",
 ]
 RULE = (
     "correspondence: build_hank(cov_mm, calc_unc=True) on small-integer / float records (1..3 channels, reference subset, "
@@ -87,7 +113,10 @@ RULE = (
     "orders and the np.kron selections of SSI_fast vs the index-level model (exact on integers); the `Vom = ...` "
     "statement of the current source evaluated on a recorded V1_t vs the model; Q1..Q4 of SSI_fast given the recorded "
     "svd/inv outputs at 1e-8 and the inv arguments at 1e-10; Fn_cov of SSI_poles vs the model read-out "
-    "|cov[0,0]| = sum of per-column squares given harness-replicated Jfx and row weights at 1e-9; every intermediate of "
+    "|cov[0,0]| = sum of per-column squares given harness-replicated Jfx and row weights at 1e-9; the whole TABLES Fn_cov and "
+    "Xi_cov (NaN pattern exactly, values at 1e-9) vs the model of the two write loops (`unc_table`) on the code's Q1..Q3 and "
+    "the per-order recorded ac2mp / abs / inv outputs; the block estimates recovered from T vs the explicit sums over the "
+    "column ranges the model names (`unc_blocks`; nb | N, nb not | N with and without left-over columns) at 1e-11; every intermediate of "
     "the uncertainty loop of SSI_poles (Pnn, S4_n exactly; inv argument, PnQ1, PnQ2_Q3, Qi, JaohT, Jfx_l, Ufx, cov_fx[0,0], "
     "Fn_cov at 1e-9; locals recorded by a line tracer at the statement `Fn_cov[jj, ii] = ...`) vs the model pass `unc_pole` "
     "run on the code's Q1..Q3 and the recorded inv / eig / log / abs outputs (measured worst 3e-14 over the thorough tier). "
@@ -106,8 +135,8 @@ ASSUMPTIONS = [
     "the closed form of the singular-vector sensitivities (eqs 28-34) is proved to be the unique first-order (dual-number) solution of the singular-triple equations, for the model's kiArg/johT (C17_sv_sens, C17_johT_first_order), with Ki an exact inverse; differentiability of the SVD triple itself (implicit-function step) is not proved",
     "the 2x2 Jacobian Jfx_l is proved to be the Frechet derivative of (Re, Im lam_d) -> (fn, 100*xi) off the branch cut (C17_fx_jacobian); the Lean transcription `jfx` of the three coded matrices is now part of Model/Unc.lean and executed by the driver (`unc_pole`) against the traced Jfx_l",
     "the link of C17_eig_sens / C17_realisation_sens to SSI_fast/SSI_poles (Q1..Q3, S4_n, Pnn, np.kron(phi, I), OO, chi) is proved (Props/C17Vec.lean: C17_Q_unvec, C17_A_first_order, C17_lambda_first_order[_qr], C17_variance_is_sum_of_squares) under the recorded-factor contracts: exact SVD triples for the first n singular values (H v = s u, u^T H = s v^T, unit vectors), Ki an exact inverse of eq. 28, rs = 1/sqrt(s) exact, Obs = Uom diag(sqrt s), OO an exact inverse of O_p^T O_p, QR exact (Q^T Q = 1, R upper triangular, inv(R[:n,:n]) exact) or equivalently A_n the normal-equation solution, an exact eigen-triple (lam_d, r_eigvt, conj(l_eigvt)) with chi.phi != 0, exact np.pi/np.log/np.abs in Jfx_l; the statement is for ANY first-order (dual-number) identification of H + eps*unvec(T[:,k]) extending those factors",
-    "not proved: existence of such a first-order identification in general (existence of the first-order SVD triple is C17_sv_sens_exists, of the first-order inverse C17_first_order_inverse_exists; existence of the first-order eigen-triple for a simple eigenvalue is not proved; a complete instance is exhibited for order 1) and the analytic step that the dual-number epsilon-part is the derivative of the floating-point pipeline (differentiability of svd/eig as functions of H)",
-    "when nb divides N the last block of build_hank has Nb-1 columns but is divided by Nb (slice clipping, mirrored by the model); the factor oracle uses nb not dividing N",
+    "existence of the first-order identification is now proved from the value-level contracts for a SIMPLE eigenvalue (C17_eig_first_order_exists: rank-nullity; C17_first_order_ident_exists: exact singular triples b < n, exact Ki/OO, exact eigen-triple with one-dimensional eigenspace => FirstOrderIdent for every direction; instantiated at order 2 for arbitrary directions, ExTab.ident2_any); C17_fncov_of_factor_exact / C17_fncov_of_build_hank_exact state the capstone for the factor covFactor/buildHankUnc builds and for the table cell covTables writes with no first-order object assumed. Still not proved: the analytic step that the dual-number epsilon-part is the derivative of the floating-point pipeline (differentiability of svd/eig as functions of H); no record whose Hankel matrix has a rational SVD was found, so the exactness hypotheses are exhibited jointly at the covFactor level (ExReal), not for stacked data coming from hankYf/hankYp",
+    "when nb divides N the last block of build_hank has Nb-1 columns but is divided by Nb (slice clipping, mirrored by the model): C17_block_columns says which columns enter which block for every nb, N; C17_last_block_bias states the factor (Nb-1)/Nb; C17_block_mean_clipped shows the block estimates then average to Hank exactly; the factor oracle still uses nb not dividing N",
     "step = 1 (the SSI routines crash for other steps)",
 ]
 
@@ -440,6 +469,96 @@ def corr_pole_pass(ctx, key, inp, Obs, l, ordmax, Qs, snap, inv_rec, ii, jj, fn_
     ctx.corr("SSI_poles[uncertainty-pass]", worst <= 1e-9, inp, errs, None, key + (ii, jj))
 
 
+def corr_table(ctx, key, inp, ordmax, Qs, snaps, Fn_cov, Xi_cov):
+    """the TABLES Fn_cov, Xi_cov of SSI_poles (allocation, order loop, pole loop, which cell receives which pole's
+    |cov_fx[0,0]| / |cov_fx[1,0]|, NaN elsewhere) against the model `covTables` run on the code's Q1..Q3 and, per order,
+    the recorded ac2mp (eig / log), abs and inv outputs"""
+    Q1, Q2, Q3 = Qs
+    orders = []
+    for ii in range(1, ordmax + 1):
+        sn = snaps[(ii, 0)]
+        lam_d, lam_c = sn["lam_d"], sn["lam_c"]
+        orders.append({
+            "np": int(len(lam_c)), "lamd": Cvec(lam_d), "lamc": Cvec(lam_c), "absd": Rvec(np.abs(lam_d)),
+            "absc": Rvec(np.abs(lam_c)), "lv": [Cvec(row) for row in sn["l_eigvt"]],
+            "rv": [Cvec(row) for row in sn["r_eigvt"]], "oo": Rmat(sn["OO"]),
+        })
+    m = ctx.model("unc_table", Q1=Rmat(Q1), Q2=Rmat(Q2), Q3=Rmat(Q3), ordmax=ordmax, pi=R(np.pi), dt=R(DT), orders=orders)
+    if m.get("status") != "ok":
+        ctx.corr("SSI_poles[Fn_cov-table]", False, inp, m.get("status"), "tables returned")
+        return
+    worst = 0.0
+    ok = True
+    for name, real in (("Fn_cov", Fn_cov), ("Xi_cov", Xi_cov)):
+        tab = m[name]
+        if (len(tab), len(tab[0]) if tab else 0) != real.shape:
+            ok = False
+            break
+        for a in range(real.shape[0]):
+            for b in range(real.shape[1]):
+                mv, rv = tab[a][b], float(real[a, b])
+                if (mv is None) != bool(np.isnan(rv)):
+                    ok = False
+                elif mv is not None:
+                    worst = max(worst, abs(fl(mv) - rv) / max(abs(rv), 1e-300))
+    ctx.dist["table_worst_rel"] = max(ctx.dist.get("table_worst_rel", 0.0), worst)
+    ctx.count("corr_table_cells", ordmax * (ordmax + 1) // 2)
+    ctx.corr("SSI_poles[Fn_cov-table]", ok and worst <= 1e-9, inp, {"worst_rel": worst, "nan_pattern_equal": ok}, None, key + ("table",))
+
+
+def corr_blocks(ctx):
+    """which columns of Yf / Yp enter which block estimate of build_hank (incl. the clipped last block when nb | N and the
+    columns left over when it does not): the block estimates recovered from the code's T against (a) the model's
+    explicit-sum `blockEstR` and (b) the plain sum of the column products over exactly the range `blockCols` names,
+    divided by Nb; columns in `leftoverCols` must not influence T - H-part"""
+    ssi = _ssi()
+    for _ in range(ctx.n(16, 200)):
+        Y, ref, p = gen_record(ctx, nmin=24, nmax=48)
+        Yref = Y[ref, :]
+        l, Nd = Y.shape
+        N = Nd - 2 * p - 1
+        if ctx.rng.random() < 0.5:
+            divs = [d for d in range(2, 8) if N % d == 0]
+            nb = ctx.rng.choice(divs) if divs else ctx.rng.randint(2, 7)
+        else:
+            nb = ctx.rng.randint(2, 7)
+        if N // nb < 1:
+            ctx.skipped += 1
+            continue
+        inp = {"Y": Rmat(Y), "Yref": Rmat(Yref), "p": p, "nb": nb}
+        m = ctx.model("unc_blocks", **inp)
+        H, T = ssi.build_hank(Y, Yref, p, "cov_mm", calc_unc=True, nb=nb)
+        Nb = N // nb
+        q = p + 1
+        ncol = N - 1
+        F = np.vstack([Y[:, q + 1 + i : q + 1 + i + ncol] for i in range(p + 1)])
+        P = np.vstack([Yref[:, q - j : q - j + ncol] for j in range(p + 1)])
+        kind = "clipped" if N % nb == 0 else ("leftover" if nb * Nb < ncol else "exact")
+        ctx.count(f"corr_blocks_{kind}")
+        ok = m["N"] == N and m["Nb"] == Nb and m["ncols"] == ncol and len(m["ranges"]) == nb
+        worst = 0.0
+        used = np.zeros(ncol, dtype=int)
+        for k in range(nb):
+            a, b = m["ranges"][k]
+            used[a:b] += 1
+            real_k = (T[:, k] * np.sqrt(nb * (nb - 1)) + H.reshape(-1, order="F")).reshape(H.shape, order="F")
+            want = np.zeros(H.shape)
+            for t in range(a, b):
+                want += np.outer(F[:, t], P[:, t])
+            want = want / Nb
+            sc = max(np.abs(H).max(), np.abs(want).max(), 1e-300)
+            worst = max(worst, np.abs(real_k - want).max() / sc, np.abs(np.array(flmat(m["blocks"][k])) - want).max() / sc)
+        la, lb = m["leftover"]
+        ok = ok and bool((used[:la] == 1).all()) and bool((used[la:lb] == 0).all()) and lb == ncol
+        if kind == "clipped":
+            ok = ok and m["ranges"][-1] == [(nb - 1) * Nb, N - 1] and la == lb
+        elif kind == "leftover":
+            ok = ok and m["ranges"][-1] == [(nb - 1) * Nb, nb * Nb] and lb - la == N % nb - 1
+        ctx.dist["blocks_worst_rel"] = max(ctx.dist.get("blocks_worst_rel", 0.0), worst)
+        ctx.corr("build_hank[block-columns]", ok and worst <= 1e-11, inp, {"ranges": m["ranges"], "leftover": m["leftover"], "worst": worst},
+                 None, (l, len(ref), p, Nd, nb, kind))
+
+
 def corr_factor(ctx):
     ssi = _ssi()
     for k in range(ctx.n(40, 500)):
@@ -601,12 +720,14 @@ def corr_q_and_var(ctx):
             for (pi_, pj_) in sorted(picks):
                 corr_pole_pass(ctx, key, inp_p | {"ii": pi_, "jj": pj_}, Obs, l, ordmax, (Q1, Q2, Q3), snaps[(pi_, pj_)],
                                rec_p["inv"][pi_ - 1], pi_, pj_, float(Fn_cov[pj_, pi_]))
+            corr_table(ctx, key, inp_p, ordmax, (Q1, Q2, Q3), snaps, Fn_cov, Xi_cov)
         done += 1
     ctx.count("corr_q_cases", done)
 
 
 def correspondence(ctx):
     corr_factor(ctx)
+    corr_blocks(ctx)
     corr_vec_kron(ctx)
     corr_vom(ctx)
     corr_q_and_var(ctx)
